@@ -878,3 +878,29 @@ fn c07_map_value_state_arbitrary() {
     kani::cover!(n > 0 && buf[0] == 255, "garbage state");
     kani::cover!(true, "end of harness reachable");
 }
+
+//@ id=C12 tier=quick timeout=600 bounds="all 2^64 f64 bit patterns (NaN payloads, signalling NaNs, signed zeros, subnormals)" desc="the element encoding used for f64 vectors (DbF64::serialize / deserialize) is the IEEE bit pattern, little endian, unchanged in both directions" kernel="DbF64::serialize,DbF64::deserialize,DbF64::from,DbF64::to_f64"
+#[kani::proof]
+#[kani::stub(std::fmt::format, crate::verif_support::fmt_stub)]
+#[kani::stub(crate::DbError::new, crate::verif_support::dberror_new_stub)]
+#[kani::unwind(10)]
+fn c12_f64_vector_element_encoding_is_bit_exact() {
+    use crate::DbF64;
+    use crate::utilities::serialize::Serialize;
+    let bits: u64 = kani::any();
+    let x = DbF64::from(f64::from_bits(bits));
+    let out = x.serialize();
+    assert!(out.len() == 8, "eight bytes per element");
+    let le = bits.to_le_bytes();
+    assert!(
+        out[0] == le[0] && out[1] == le[1] && out[2] == le[2] && out[3] == le[3]
+            && out[4] == le[4] && out[5] == le[5] && out[6] == le[6] && out[7] == le[7],
+        "C12: f64 vector element is not stored with its exact bit pattern"
+    );
+    let back = ok(DbF64::deserialize(&le));
+    assert!(back.to_f64().to_bits() == bits, "C12: f64 vector element does not read back with its exact bit pattern");
+    kani::cover!(f64::from_bits(bits).is_nan() && bits != f64::NAN.to_bits(), "non-canonical NaN");
+    kani::cover!(bits == 0x8000_0000_0000_0000, "negative zero");
+    kani::cover!(true, "end of harness reachable");
+    std::mem::forget(out);
+}
